@@ -1,0 +1,63 @@
+//go:build verif
+
+// Contracts for the contract-based verification in /verif (comment-only file).
+
+package udpip
+
+//@ # ---- C11: the documented port translation of the internal link (router.UnderlayProvider.SetDispatchPorts):
+//@ # "any port between the values of start and end remains unchanged, while any other will be replaced by redirect"
+//@ spec func dispatchPort(port uint16, start uint16, end uint16, redirect uint16) uint16 = ite(start <= port && port <= end, port, redirect)
+
+//@ func (*internalLink).Resolve
+//@   props C11
+//@   requires p != nil && l.svc != nil
+//@   panics_when dst.t != addr.HostTypeIP && dst.t != addr.HostTypeSVC
+//@   modifies p.RemoteAddr
+//@   ensures result == nil && dst.t == addr.HostTypeIP ==> p.RemoteAddr != nil && (*net.UDPAddr)(p.RemoteAddr).Port == int(dispatchPort(port, l.dispatchStart, l.dispatchEnd, l.dispatchRedirect))
+//@   ensures result != nil ==> p.RemoteAddr == old(p.RemoteAddr)
+
+//@ # the range handed to the provider reaches the internal link, whatever the order of the two calls
+//@ macro linkRangeOK(u) = (u.internalConnection != nil ==> typeis(u.internalConnection.link, *internalLink) ==> asptr(u.internalConnection.link, *internalLink).dispatchStart == u.dispatchStart && asptr(u.internalConnection.link, *internalLink).dispatchEnd == u.dispatchEnd && asptr(u.internalConnection.link, *internalLink).dispatchRedirect == u.dispatchRedirect)
+
+//@ func (*provider).SetDispatchPorts
+//@   props C11
+//@   # data-structure invariant of the provider: the internal connection's link is a non-nil *internalLink (NewInternalLink)
+//@   requires u.internalConnection != nil ==> typeis(u.internalConnection.link, *internalLink) && asptr(u.internalConnection.link, *internalLink) != nil
+//@   ensures u.dispatchStart == start && u.dispatchEnd == end && u.dispatchRedirect == redirect
+//@   ensures linkRangeOK(u)
+//@   ensures u.internalConnection == old(u.internalConnection)
+
+//@ func newProvider
+//@   props C11 C17
+//@   ensures typeis(result, *provider) && asptr(result, *provider).receiveBufferSize == receiveBufferSize && asptr(result, *provider).sendBufferSize == sendBufferSize
+//@   ensures asptr(result, *provider).dispatchStart == 0 && asptr(result, *provider).dispatchEnd == 65535 && asptr(result, *provider).dispatchRedirect == 30041 && asptr(result, *provider).internalConnection == nil
+
+//@ # ---- C17 (underlay side): every socket is opened with the provider's buffer sizes
+//@ ghost var lastOpenRcv int
+//@ ghost var lastOpenSnd int
+//@ iface ConnOpener.Open
+//@   requires c != nil
+//@   modifies nothing
+//@   gset lastOpenRcv := c.ReceiveBufferSize
+//@   gset lastOpenSnd := c.SendBufferSize
+//@ iface ConnOpener.UDPCanReuseLocal
+//@   modifies nothing
+//@ func makeHashSeed
+//@   trusted
+//@   modifies nothing
+
+//@ func (*provider).newConnectedLink
+//@   props C17
+//@   requires u.connOpener != nil && u.allLinks != nil
+//@   ensures result1 == nil ==> lastOpenRcv == u.receiveBufferSize && lastOpenSnd == u.sendBufferSize
+//@   ensures u.receiveBufferSize == old(u.receiveBufferSize) && u.sendBufferSize == old(u.sendBufferSize)
+
+//@ func (*provider).NewInternalLink
+//@   props C11 C17
+//@   requires u.connOpener != nil && u.allLinks != nil
+//@   panics_when u.internalConnection != nil
+//@   ensures result1 == nil ==> lastOpenRcv == u.receiveBufferSize && lastOpenSnd == u.sendBufferSize
+//@   ensures u.receiveBufferSize == old(u.receiveBufferSize) && u.sendBufferSize == old(u.sendBufferSize)
+//@   ensures u.dispatchStart == old(u.dispatchStart) && u.dispatchEnd == old(u.dispatchEnd) && u.dispatchRedirect == old(u.dispatchRedirect)
+//@   ensures result1 == nil ==> u.internalConnection != nil && typeis(u.internalConnection.link, *internalLink) && asptr(u.internalConnection.link, *internalLink) != nil && linkRangeOK(u)
+//@   ensures result1 == nil ==> result0 == u.internalConnection.link
